@@ -147,9 +147,10 @@ def execute(ctx):
         P.sim_sleep(1.5)
 
     verdict = sim.run(scenario)
-    if verdict[0] == 'deadlock':
-        ctx.violation('5', 'deadlock', 'all threads blocked for ever: %s' % (
-            [(t['thread'], t['waiting_on']) for t in verdict[1]],), verdict[1])
+    if verdict[0] in ('deadlock', 'timeout'):
+        from simkit.harness import hang_signature
+        sg, msg = hang_signature(verdict)
+        ctx.violation('5', sg, msg, verdict[1])
     for name, exc, tb in sim.thread_deaths:
         ctx.violation('5', 'thread-died %s @%s' % (exc.split(':')[0], cflib_site(tb)),
                       'library thread %s died: %s' % (name, exc), tb)
@@ -304,6 +305,13 @@ def run_session(ctx, w, dev, cf, rec, si, s, SyncCrazyflie):
         common.wait_until(sim, lambda: attempt_over() or seen('fully_connected'), BOUND, 0.01)
         if not attempt_over():
             do_close('main')
+    # the error report of this session must have returned before the next session starts
+    def reports_done():
+        ev = rec.hist[marks['n']:]
+        return sum(1 for e in ev if e[2] == 'link_error_reported') == sum(1 for e in ev if e[2] == 'link_error_returned')
+    if not common.wait_until(sim, reports_done, BOUND, 0.001):
+        late(ctx, si, '5', 'link-error-callback-hang', 'the link error callback did not return within %gs' % BOUND,
+             ctx.stack_of('simlink-') + ctx.stack_of('bounded:'))
     # clause 5: disconnected state reached in bounded time after a link error report or a close
     if not (seen('link_error_reported') or seen('call:cf.close_link')):
         rec.note('session-end', si)
